@@ -209,8 +209,15 @@ func run(sel int, in []int64) []int64 {
 	w := sched.NewWorld(nodes, jobs, tasks)
 	out := []int64{-100}
 	out = append(out, w.EncState()...)
-	for _, o := range ops {
+	for i, o := range ops {
 		ob := execObserved(w, o)
+		if sel == 2 && i == len(ops)-1 {
+			// the dispatch loop of Session.Allocate ranges over a Go map: which members were
+			// dispatched before the refused one is order dependent; only the result code is compared
+			// here, the step is judged by law 105
+			out = append(out, -101, ob.res)
+			break
+		}
 		out = append(out, ob.enc()...)
 		out = append(out, w.EncState()...)
 	}
@@ -281,6 +288,28 @@ func laws(sel int, in, got []int64, law func(lsel int, lin []int64, sig string))
 			tid = o.A[1]
 		case 11, 12, 13:
 			tid = o.A[0]
+		}
+		if isGang(ops) && i == len(ops)-1 && o.Code == 11 {
+			// directed gang family: order-insensitive law of the dispatch loop
+			rb := []int64{}
+			for id, on := range w.Cache.RefuseBind {
+				if on {
+					rb = append(rb, id)
+				}
+			}
+			sort.Slice(rb, func(a, b int) bool { return rb[a] < rb[b] })
+			lin := []int64{o.A[0], o.A[1], ob.res, int64(len(rb))}
+			lin = append(lin, rb...)
+			lin = append(lin, before...)
+			lin = append(lin, after...)
+			lin = append(lin, int64(len(ob.newBind)))
+			for _, b := range ob.newBind {
+				lin = append(lin, b[0], b[1])
+			}
+			law(105, lin, "")
+			if sel == 2 {
+				continue
+			}
 		}
 		lin := []int64{o.Code, ob.res, tid}
 		lin = append(lin, before...)
@@ -415,6 +444,129 @@ func gen(rng *vh.Rng, n int, emit func(id string, sel int, in []int64, kind stri
 		desc := map[string]any{"nodes": len(nodes), "jobs": len(jobs), "tasks": len(tasks), "ops": len(ops), "op_kinds": stats}
 		emit(fmt.Sprintf("hist-%d", i), 1, encCase(nodes, jobs, tasks, ops), kind, len(ops) >= 3, desc)
 	}
+	// directed family: gangs placed member by member through Session.Allocate, the cache refusing
+	// a subset of the members when the last call completes the gang
+	for i := 0; i < n/4+2; i++ {
+		r := rng.Fork()
+		nodes, jobs, tasks, ops, orderFree, desc := genGang(r)
+		sel, kind := 2, "gang/refused"
+		if orderFree {
+			sel, kind = 1, "gang/order-free"
+		}
+		emit(fmt.Sprintf("gang-%d", i), sel, encCase(nodes, jobs, tasks, ops), kind, true, desc)
+	}
+}
+
+// isGang recognises the directed family by its shape: it starts by switching JobReady off and ends
+// with SetFaults(JobReady on) followed by a Session.Allocate
+func isGang(ops []opT) bool {
+	n := len(ops)
+	return n >= 3 && ops[0].Code == 16 && !ops[0].B && len(ops[0].L[0])+len(ops[0].L[1])+len(ops[0].L[2]) == 0 &&
+		ops[n-1].Code == 11 && ops[n-2].Code == 16 && ops[n-2].B
+}
+
+// genGang: job 1 is a gang of m = 2..4 Pending members (minAvailable = m; ssn.JobReady is scripted:
+// off until the last member arrives).  Optional earlier Statement operations on the same job; the
+// members are placed one by one with Session.Allocate on one or several nodes; then the refusal
+// script (none / first / middle / the argument / several / all) is installed together with
+// JobReady = true and the last member is allocated, which runs the dispatch loop over the gang.
+func genGang(r *vh.Rng) ([]sched.NodeSpec, []sched.JobSpec, []sched.TaskSpec, []opT, bool, map[string]any) {
+	nn := r.Range(1, 3)
+	nodes := []sched.NodeSpec{}
+	for i := 1; i <= nn; i++ {
+		nodes = append(nodes, sched.NodeSpec{ID: int64(i), Has: true, CPU: 16000, Mem: 64 << 20, Pods: 20, GPU: int64(r.Range(0, 2))})
+	}
+	m := r.Range(2, 4)
+	jobs := []sched.JobSpec{{ID: 1, Queue: 1, Min: int64(m)}, {ID: 2, Queue: int64(r.Range(1, 2)), Min: 1}}
+	tasks := []sched.TaskSpec{}
+	for t := 1; t <= m; t++ {
+		ts := sched.TaskSpec{ID: int64(t), Job: 1, Role: int64(r.Range(1, 2)), Prio: int64(r.Range(0, 3)), Status: sched.SPending,
+			CPU: int64(r.Range(1, 6)) * 250, Mem: int64(r.Range(1, 4)) << 19}
+		if r.Chance(1, 6) {
+			ts.CPU, ts.Mem = 0, 0 // best effort
+		}
+		tasks = append(tasks, ts)
+	}
+	// a running task of the gang's job (a victim for the prelude) and a bystander of another job
+	runner := int64(m + 1)
+	tasks = append(tasks, sched.TaskSpec{ID: runner, Job: 1, Role: 1, CPU: 500, Mem: 1 << 19, Status: sched.SRunning, Node: int64(r.Range(1, nn))})
+	tasks = append(tasks, sched.TaskSpec{ID: runner + 1, Job: 2, Role: 1, CPU: 250, Mem: 1 << 19, Status: vh.Pick(r, []int64{sched.SPending, sched.SRunning, sched.SBound})})
+	if tasks[len(tasks)-1].Status != sched.SPending {
+		tasks[len(tasks)-1].Node = int64(r.Range(1, nn))
+	}
+	anyNode := func() int64 { return int64(r.Range(1, nn)) }
+	ops := []opT{{Code: 16, L: [][]int64{{}, {}, {}}, B: false}}
+	members := []int64{}
+	for t := 1; t <= m; t++ {
+		members = append(members, int64(t))
+	}
+	// shuffle the arrival order
+	for i := len(members) - 1; i > 0; i-- {
+		j := r.Intn(i + 1)
+		members[i], members[j] = members[j], members[i]
+	}
+	prelude := []string{}
+	committed := int64(0)
+	for k := 0; k < 2; k++ {
+		switch r.Intn(6) {
+		case 0: // Statement.Allocate of a member, discarded
+			x := vh.Pick(r, members)
+			ops = append(ops, opT{Code: 1, A: []int64{1, x, anyNode()}}, opT{Code: 6, A: []int64{1}})
+			prelude = append(prelude, "allocate+discard")
+		case 1: // Statement.Pipeline of a member, discarded
+			x := vh.Pick(r, members)
+			ops = append(ops, opT{Code: 2, A: []int64{2, x, anyNode()}}, opT{Code: 6, A: []int64{2}})
+			prelude = append(prelude, "pipeline+discard")
+		case 2: // eviction of the job's running task, discarded
+			ops = append(ops, opT{Code: 3, A: []int64{1, runner}}, opT{Code: 6, A: []int64{1}})
+			prelude = append(prelude, "evict+discard")
+		case 3: // one member goes through a committed statement (Binding before the gang completes)
+			if committed == 0 && len(members) > 2 {
+				committed = members[0]
+				members = members[1:]
+				ops = append(ops, opT{Code: 1, A: []int64{3, committed, anyNode()}}, opT{Code: 7, A: []int64{3}})
+				prelude = append(prelude, "allocate+commit")
+			}
+		}
+	}
+	oneNode := r.Chance(1, 3)
+	n0 := anyNode()
+	nodeFor := func() int64 {
+		if oneNode {
+			return n0
+		}
+		return anyNode()
+	}
+	last := members[len(members)-1]
+	for _, t := range members[:len(members)-1] {
+		ops = append(ops, opT{Code: 11, A: []int64{t, nodeFor()}})
+	}
+	// the refusal script
+	rb := []int64{}
+	pattern := vh.Pick(r, []string{"none", "first", "middle", "argument", "several", "all", "earlier-random"})
+	switch pattern {
+	case "first":
+		rb = []int64{members[0]}
+	case "middle":
+		rb = []int64{members[(len(members)-1)/2]}
+	case "argument":
+		rb = []int64{last}
+	case "several":
+		for _, t := range members {
+			if r.Chance(1, 2) {
+				rb = append(rb, t)
+			}
+		}
+	case "all":
+		rb = append(rb, members...)
+	case "earlier-random":
+		rb = []int64{members[r.Intn(len(members)-1)]}
+	}
+	sort.Slice(rb, func(a, b int) bool { return rb[a] < rb[b] })
+	ops = append(ops, opT{Code: 16, L: [][]int64{{}, rb, {}}, B: true})
+	ops = append(ops, opT{Code: 11, A: []int64{last, nodeFor()}})
+	desc := map[string]any{"members": len(members), "nodes": nn, "refused": rb, "pattern": pattern, "prelude": prelude, "argument": last}
+	return nodes, jobs, tasks, ops, len(rb) == 0, desc
 }
 
 func genCluster(r *vh.Rng) ([]sched.NodeSpec, []sched.JobSpec, []sched.TaskSpec) {
